@@ -52,7 +52,8 @@ def w_foreign(fexe, ref, addrs, backend, opts):
 def main(tier, seed):
     rep, cx, n = addr_common.run(
         PROP, tier, seed, sections=1 | 2 | 4 | 8,
-        variants=[("asan", {}, False), ("asan-extra", {"defs": ["EAV_EXTRA"]}, True)], rule="", extra_jobs=extra_jobs(tier, seed),
+        variants=[("asan", {}, False), ("asan-extra", {"defs": ["EAV_EXTRA"]}, True),
+                  ("asan-extra-ndebug", {"defs": ["EAV_EXTRA", "NDEBUG"]}, True)], rule="", extra_jobs=extra_jobs(tier, seed),
         assumptions=["'syntactically invalid' = the composition of the per-part validators (tld off) rejects",
                      "domain not FQDN / TLD errors are not syntax errors (flags may stay set there)"])
     c = rep.counters
